@@ -105,7 +105,7 @@ CHECKS = {
    level="exploration",
    technique="runtime monitor: supply vs recorded principal after every event + per-message balance-delta oracle (big.Int), over fee configurations and decimal-scale pairs",
    text="The harness never mints a debt denom, so supply <= recorded principal (== in histories without liquidation) is checked exactly after every tx and block; every successful mint / repay / close / stable-mint message is checked for supply delta = principal delta, collector delta = floor(principal*fee), user delta = principal - fee. Held on what was observed.",
-   note="ESM-registered debt is not in the principal sum (the workload of this check does not execute ESM).",
+   note="Interest and closing fees are not part of the principal sum (they are paid out of existing supply).",
    design="§4 C02"),
  "C03": dict(
    level="exploration",
@@ -129,6 +129,24 @@ CHECKS = {
 
 NOT_YET = {}
 
+# sentences appended to the level text of checks that grew after their first registration (see DESIGN.md §9/§10)
+ADDENDA = {
+ "C01": " In every second run the whole emergency shutdown of one app is driven with real messages and blocks (governance-token deposits, execute, price snapshot, cool-off traffic, redemption of vaults / stable-mint vaults / collector, collateral redemption by debt holders) and app-reserve top-ups occur.",
+ "C02": " Debt registered for emergency redemption (esm AssetToAmount, debt side) is part of the principal sum; every second run ends with a complete emergency shutdown of one app; app-reserve top-ups occur in the liquidation runs.",
+ "C04": " The workload includes same-tick order crowds with partial counter-fills and a stray foreign coin sent to a pool's reserve account before its last provider leaves.",
+ "C05": " After every in-situ batch the stored order records are asserted as well (never filled beyond the amount, over the order's whole life), and resting-order scenarios (a long-lived buy order filled partly at a better price, then more sell liquidity than it has left, batch after batch) are run.",
+ "C09": " Per-asset slow ramps (one volatile asset falls 1.5 % per block while the other rests), forced inter-pool borrows through the first and the second transit asset, tail probes (a fresh vault / borrow at the end of the list turns unsafe while the population rests, for list lengths covering every residue modulo the batch size) and a final crash with a quiet period complete the random phase.",
+ "C10": " The app reserve is funded (small and large amounts) so that collateral-shortage closings occur; limit bids are aimed at the discount bucket a live auction is about to enter so that automatic fills (whole and partial deposits, several bidders per bucket) happen; one run in three ends with an emergency shutdown while auctions are running (hand-back of unsold collateral).",
+ "C11": " Automatic fills of aimed limit bids are observed in blocks; in every block no user wallet may be debited; app-reserve top-ups make shortage closings reachable.",
+ "C12": " Amounts a hostile sender solves from public state are used as well (exactly the available balance of a lend position, whole collateral, whole debt, whole locker balance, whole limit-bid deposit), and for contract messages every address field of the body is additionally set to each designated contract's address.",
+ "C14": " Further cells: lend withdraw (small / exactly-available); shutdown cells after the esm begin blocker has taken its price snapshot; on an unsafe vault the liquidate message (on a fork) and the sweep (real block) with exactly one of the two feeds the auction needs inactive; breaker sweeps on a young chain where an app's first fees (debt auction due) or large fees (surplus auction due) and the admin's kill-switch message share a block, with the breaker-off block as positive control.",
+ "C15": " A fourth part runs the CDP workload on the real bandoracle->market feed (per-asset zero-rate outages of 1..6 rounds, band outages, short responses, absurd values, several window sizes / accepted gaps); environment faults include 'positions unsafe while exactly one needed feed is down'; the explored boundaries include the liquidity begin block at a 150th height (swap-fee conversion) and the block in which the emergency-shutdown hooks perform the redemption.",
+ "C16": " Four tapes per workload: CDP (with reserve top-ups, aimed limit bids, legacy governance proposals passing the app's ante decorators and a complete emergency shutdown), liquidity, liquidity crowds (several same-tick orders of very different sizes, partial counter-fill, every block) and lend.",
+ "C18": " Savings credited by real locker messages (top-up, withdrawal, reward calculation) inside the CDP workload are compared with the 320-bit accrual of the balance held before the message over the time since the locker's last stamp (zero at zero elapsed time).",
+ "C19": " Governance switches the denomination swap fees are distributed in while swap-fee gauges hold undistributed remainders.",
+ "C20": " Kill-switch records exist at export time (one app switched on and off, the other left on in half of the rounds) and the continuation contains registry (MsgAddAsset with a used name / a used denom / a new asset) and control messages; app-reserve top-ups are part of the 'everything' feature set.",
+}
+
 def main():
     checks = []
     for pid in ALL:
@@ -142,7 +160,7 @@ def main():
             "evidence_file": "/verif/evidence/%s.json" % pid,
             "replay_cmd_template": "./check %s quick --replay {path}" % pid,
             "engine": "harness",
-            "level_claimed": {"category": c["level"], "text": c["text"], "design_ref": c["design"]},
+            "level_claimed": {"category": c["level"], "text": c["text"] + ADDENDA.get(pid, ""), "design_ref": c["design"]},
             "level_note": c["note"],
             "technique": c["technique"],
         })
